@@ -387,6 +387,33 @@ def run_valid_spec(cases):
     return res
 
 
+def run_header_spec(items):
+    """Spec/C13Doc.v doc_header_symbols* (extracted) -> id -> list of names, or None when the model's parser rejects"""
+    if not os.path.exists(DRIVER_SPEC):
+        return None
+    lines = ["(header %s %s %s %s)" % (cid, enc.sx_record("document", doc), enc.sx_runtime(opts, ev), "T" if partial else "F")
+             for cid, doc, opts, ev, partial in items]
+    if not lines:
+        return {}
+    res = {}
+    def one(chunk):
+        proc = subprocess.run([DRIVER_SPEC], input=("\n".join(chunk) + "\n").encode("utf-8"),
+                              stdout=subprocess.PIPE, stderr=subprocess.PIPE, timeout=3000,
+                              preexec_fn=_big_stack, env=dict(os.environ, OCAMLRUNPARAM="s=16M"))
+        if proc.returncode != 0:
+            raise RuntimeError("spec driver failed: %s" % proc.stderr.decode()[-2000:])
+        out = {}
+        for line in proc.stdout.decode("utf-8", "replace").split("\n"):
+            if line:
+                k, _, v = line.partition("\t")
+                out[k] = json.loads(v)
+        return out
+    with ThreadPoolExecutor(max_workers=NPROC) as ex:
+        for r in ex.map(one, _chunks(lines, NPROC)):
+            res.update(r)
+    return res
+
+
 def run_grammar_spec(items):
     """extracted grammar reader (Spec/C19Grammar.v: wf_lines, doc_names_valid) on script texts the REAL tool produced.
     items: (id, doc, opts, emit_version, partial, [script text, ...]) -> id -> {"names_valid":..., "accepted":[...]}"""
